@@ -22,6 +22,7 @@ TRUSTED = ['Lean 4.33 kernel', 'axioms: propext, Classical.choice, Quot.sound', 
            'harness/c15.py comparison tolerances (1e-12 forward maps, 1e-9 rebuilt rotations, 1e-6 inside |beta|<zero_eps)',
            'modelled, not verified: numqi/group/_lie.py, matrix_space/_clebsch_gordan.py; sympy CG values are a contract (probed)']
 
+OPEN_STATEMENTS = ['Numqi.C15.So3RoundtripThreshold.Statement', 'Numqi.C15.Su2Roundtrip.Statement']
 PI = math.pi
 EPS = 1e-7
 
@@ -159,6 +160,9 @@ def correspondence(ctx):
     import numqi
     G = numqi.group
     rng = ctx.rng
+    # full statements kept as `def … .Statement : Prop` (not proved) are counted as open obligations
+    ctx.proof['obligations'] += len(OPEN_STATEMENTS)
+    ctx.extra['open_statements'] = OPEN_STATEMENTS
     delta = dict(fwd=0.0, ang=0.0, irrep=0.0)
 
     # ---- forward maps: angles -> SO(3), SU(2) (Float model) ---------------------------------------------------------
